@@ -2,6 +2,7 @@ package sctp
 
 import (
 	"context"
+	"errors"
 	"fmt"
 	"sort"
 	"strings"
@@ -136,6 +137,32 @@ func concScenario(spec *concSpec) *Scenario {
 					_ = sb1.SetReadDeadline(time.Now().Add(5 * time.Second))
 				}))
 			}
+			if has("De") {
+				// a deadline is armed while nobody reads; the stream ends (reset / abort / close)
+				// before it expires; the application then reads like any deadline-aware loop
+				ts = append(ts, m.Go("De", func() {
+					_ = sb1.SetReadDeadline(time.Now().Add(200 * time.Millisecond))
+					m.Sleep(400 * time.Millisecond)
+					buf := make([]byte, 4000)
+					for {
+						n, _, err := sb1.ReadSCTP(buf)
+						if err == nil {
+							mu.Lock()
+							read["R1"] = append(read["R1"], string(buf[:n]))
+							mu.Unlock()
+							continue
+						}
+						if errors.Is(err, ErrReadDeadlineExceeded) {
+							_ = sb1.SetReadDeadline(time.Time{})
+							continue
+						}
+						mu.Lock()
+						rerr["De"] = err
+						mu.Unlock()
+						return
+					}
+				}))
+			}
 			teardown := ""
 			if has("Xs") {
 				ts = append(ts, m.Go("Xs", func() { _ = sa1.Close() }))
@@ -200,7 +227,7 @@ func concScenario(spec *concSpec) *Scenario {
 						return false
 					}
 					for w, r := range map[string]string{"W1": "R1", "W2": "R2", "Wb": "Ra"} {
-						if has(w) && has(r) && !has("Xs") && len(read[r])+len(read[r+"x"]) < len(wrote[w]) {
+						if has(w) && (has(r) || (r == "R1" && has("De"))) && !has("Xs") && len(read[r])+len(read[r+"x"]) < len(wrote[w]) {
 							return false
 						}
 					}
@@ -342,7 +369,7 @@ func lockCycle(edges map[string]bool) []string {
 func propC20(j *Job) {
 	progs := []string{
 		"W1 W2 R1 R2", "W1 Q R1", "W1 R1 Xs", "W1 R1 Xh", "W1 R1 Xc", "W1 R1 Xa", "R1 R1x W1 Xcb", "W1 R1 D", "W1 Wb R1 Ra",
-		"Xc Xcb W1", "Xa Xc R1", "Xh Xhb W1 Wb R1 Ra", "W1 Q Xs R1", "R1 R1x Xa",
+		"Xc Xcb W1", "Xa Xc R1", "Xh Xhb W1 Wb R1 Ra", "W1 Q Xs R1", "R1 R1x Xa", "W1 Xs De", "W1 Xa De", "Xcb De",
 	}
 	modes := stdModes()
 	for mi, mode := range modes {
